@@ -11,7 +11,7 @@ func init() {
 			c10Failures(r)
 		}
 	}, func(w *run.Worker, v *run.Viol) {
-		if c10FailReplay != nil && len(v.Check) >= 5 && v.Check[:5] == "error" {
+		if c10FailReplay != nil && (len(v.Check) >= 5 && v.Check[:5] == "error" || v.Check == "implicit-column-name") {
 			c10FailReplay(w, v)
 			return
 		}
